@@ -57,7 +57,8 @@ PROPS = {
         'modules': M_BODYR,
         'explanation': 'BodyReader::for_response / header_defined extracted verbatim and verified against the spec function `framing` written from the property (RFC 9112 6.3) for every method, every u16 status, both versions and every header situation; Call::try_response sets the reader from the response\'s own first textual Content-Length / Transfer-Encoding; need_response_body / into_body / Flow<RecvResponse>::proceed select body / redirect / cleanup exactly by the rule.',
         'assumptions': [VERUS, HTTP, STR, 'te_declares_chunked(value) (the split/trim/any pipeline over the Transfer-Encoding value, rule N9) is uninterpreted', LIT],
-        'bounded': ['Transfer-Encoding list expression: native exhaustive run over the C06 menu'],
+        'bounded': ['Transfer-Encoding list expression: native exhaustive run over the C06 menu',
+                    'util::compare_lowercase_ascii (trusted in Verus): Kani harnesses kani/verif_kani.rs on the real function, all valid UTF-8 strings of 0..=8 bytes against "chunked" (thorough tier)'],
     },
     'C07': {
         'modules': M_CODING,
@@ -122,7 +123,8 @@ PROPS = {
         'modules': ['ext', 'client::amended', 'client::call', 'client::flow'],
         'explanation': 'verify_version verified == spec_verify_version; AmendedRequest::analyze verified == spec_analyze (classes in the documented order, Ok iff no class applies - both directions); analyze_request: on Err *final == *old (not cached); Call::write (both flavours) and Flow<SendRequest>::write: a rejected request leaves flow and output buffer untouched; with_body on a bodiless method = wanted mode chunked => MethodForbidsBody.',
         'assumptions': [VERUS, HTTP, STR, ITER, LIT],
-        'bounded': ['headers_get_all/headers_get pipelines (shared with C02)'],
+        'bounded': ['headers_get_all/headers_get pipelines (shared with C02)',
+                    'util::compare_lowercase_ascii (trusted in Verus): Kani harnesses on the real function (thorough tier)'],
     },
     'C18': {
         'modules': M_BODYW,
